@@ -314,3 +314,7 @@ func Parallel(fs ...func()) {
 	wg.Wait()
 }
 func Scheduler(budget int) {}
+
+func Snapshot(ptr interface{}) interface{}  { notNative("Snapshot"); return nil }
+func SameAs(snapshot, ptr interface{}) bool { notNative("SameAs"); return false }
+func Quiesce()                              { notNative("Quiesce") }
